@@ -214,10 +214,15 @@ func cmdCheck(args []string) {
 		case "tool-disagreement":
 			res.ToolTrouble = append(res.ToolTrouble, "solver disagreement on "+o.Name+": "+o.Note)
 			continue
+		case "tool-error":
+			res.ToolTrouble = append(res.ToolTrouble, "every solver rejected the query for "+o.Name+": "+o.Note)
+			continue
 		}
 		if o.Kind == "cover" {
-			res.ToolTrouble = append(res.ToolTrouble, "VACUOUS: "+o.Name+" ("+o.Status+")")
-			continue
+			if o.Status == "failed" {
+				res.ToolTrouble = append(res.ToolTrouble, "VACUOUS: "+o.Name+" (precondition/path is unsatisfiable)")
+			}
+			continue // unknown: inconclusive cover check (reported in evidence)
 		}
 		if f := isKnown(o.Name); f != nil {
 			line := fmt.Sprintf("KNOWN-FINDING: property=%s %s", prop, f.Text)
@@ -459,7 +464,7 @@ func writeEvidence(p *Program, res *CheckResult, dir string, wall float64, timeo
 		"samples":                  samples,
 		"functions_under_contract": fns,
 		"by_backend":               byBackend,
-		"cover_checks":             map[string]int{"run": covers, "satisfiable": coversOK},
+		"cover_checks":             map[string]int{"run": covers, "satisfiable": coversOK, "inconclusive": covers - coversOK},
 		"undecided":                undec,
 		"bounded":                  res.Bounded,
 		"known_findings":           res.Known,
